@@ -17,10 +17,10 @@ def run(tier, seed):
         r["twin"] = {"by": "rot", "args": ac.twin_args(r, "rot", rng)}
         recipes.append(r)
     traces = ac.validate(run, "annotated-assemblies", recipes)
-    if not q:      # real registry plasmids with their own feature tables, one input rotated by the implementation
+    if True:       # real registry plasmids with their own feature tables, inputs rotated by the implementation
         from . import registry_asm
-        rr = registry_asm.assembly_recipes(rng, 6)
-        for r in rr[:3]:
+        rr = registry_asm.assembly_recipes(rng, 2 if q else 12)
+        for r in rr[:(1 if q else 6)]:
             r["twin"] = {"by": "rot", "args": [rng.randrange(1, 2000)] + [rng.randrange(1, 1500) for _ in r["modules"]]}
         run.extra["registry_assemblies"] = len(rr)
         if rr:
